@@ -160,7 +160,7 @@ def one_setup(chk, drv, it, stats):
         nth = max(nth, 3)
     if it % 10 == 7:
         # poloidal sizes for which (k * (1/n)) * n is not exactly k for some mode number k (fftfreq gives exact integers there)
-        nth = rng.choice([14, 17, 18])
+        nth = [14, 17, 18][it // 10 % 3]
         nz = 1
     if it % 10 == 3:
         # many theta lines on one process: (radial points) x (z planes) a round number (transforms done in blocks of lines)
@@ -190,10 +190,11 @@ def one_setup(chk, drv, it, stats):
         kind = 'random'
     if it % 4 == 1:
         from_f = True              # the density comes from a distribution function: the equilibrium table is built with the off-centre rp
-        if it % 8 == 1:
-            kind = 'equilibrium'   # ... and the equilibrium of THESE constants is a fixed point
+        kind = 'equilibrium' if it % 8 in (1, 5) else kind      # ... and the equilibrium of THESE constants is a fixed point
     if it % 6 == 2 and it % 4 != 1:
         kind, from_f = 'random', False          # a complex density given directly (see below)
+    if it % 10 == 7:
+        kind, from_f = 'random', False          # content in every mode of the special poloidal sizes
     if it % 5 == 4:
         # a line source on the first theta point, the same on every z plane: ALL poloidal modes of the density are equal (and the
         # slices of consecutive modes on one process hold exactly the same numbers)
